@@ -371,24 +371,47 @@ theorem inv_addCore (s1 s' : State) (e : Event) (ch : Bool) (hs1 : Inv s1)
         · simp only [h5, Bool.false_eq_true, if_false, AddResult.ok.injEq] at ha
           obtain ⟨rfl, _⟩ := ha; exact hs4
 
+/-- is `e` a resubmitted, already stored replaceable event (for which `pre_save` returns False)? -/
+def isResubmission (s : State) (e : Event) : Bool :=
+  (isReplaceable e.kind || isParamReplaceable e.kind) && s.events.any (fun r => r.id == e.id)
+
+theorem addEvent_resubmission (s : State) (e : Event) (h : isResubmission s e = true) :
+    addEvent s e = .ok s false := by
+  unfold addEvent
+  unfold isResubmission at h
+  simp only [h, if_true]
+
+theorem addEvent_fresh (s : State) (e : Event) (h : isResubmission s e = false) :
+    addEvent s e = match preSave s e with | none => .raises | some s1 => addCore s1 e := by
+  unfold addEvent
+  unfold isResubmission at h
+  simp only [h, Bool.false_eq_true, if_false]
+  rfl
+
 /-- every committed `add_event` keeps the invariant -/
 theorem inv_addEvent (s s' : State) (e : Event) (ch : Bool) (h : Inv s)
     (ha : addEvent s e = .ok s' ch) : Inv s' := by
-  unfold addEvent at ha
-  cases hp : preSave s e with
-  | none => simp [hp] at ha
-  | some s1 =>
-    simp only [hp] at ha
-    have hs1 : Inv s1 := by
-      unfold preSave at hp
-      split at hp
-      · simp only [Option.some.injEq] at hp; subst hp; exact inv_deleteWhere s _ h
-      · split at hp
+  cases hres : isResubmission s e with
+  | true =>
+    rw [addEvent_resubmission s e hres] at ha
+    simp only [AddResult.ok.injEq] at ha
+    obtain ⟨rfl, _⟩ := ha; exact h
+  | false =>
+    rw [addEvent_fresh s e hres] at ha
+    cases hp : preSave s e with
+    | none => simp [hp] at ha
+    | some s1 =>
+      simp only [hp] at ha
+      have hs1 : Inv s1 := by
+        unfold preSave at hp
+        split at hp
+        · simp only [Option.some.injEq] at hp; subst hp; exact inv_deleteWhere s _ h
         · split at hp
-          · simp at hp
-          · simp only [Option.some.injEq] at hp; subst hp; exact inv_deleteWhere s _ h
-        · simp only [Option.some.injEq] at hp; subst hp; exact h
-    exact inv_addCore s1 s' e ch hs1 ha
+          · split at hp
+            · simp at hp
+            · simp only [Option.some.injEq] at hp; subst hp; exact inv_deleteWhere s _ h
+          · simp only [Option.some.injEq] at hp; subst hp; exact h
+      exact inv_addCore s1 s' e ch hs1 ha
 
 theorem inv_gcSql (s : State) (now : Nat) (h : Inv s) : Inv (gcSql s now) := inv_deleteWhere s _ h
 
